@@ -116,7 +116,7 @@ N_FAMILIES = {
  "C08": "concat (ak.concatenate axis=0 composed from mergeable/mergemany/merge_as_union/simplify as structure.py does: same types, numerically different leaf types with the promoted dtype checked against numpy.result_type for two arrays, different types giving unions, record arrays with the same fields stored in another order, IndexedArray nodes with repeats also next to option-type arrays, blocks of one rectilinear shape as n-dimensional NumpyArrays, datetime64/timedelta64 arrays stored in different units), union_shared, astype (values_astype against numpy.astype leaf by leaf, n-dimensional arrays included, complex64/complex128 as source and target), simplify_union (simplify_uniontype keeps every value, flat unions and a union nested in a union), union_windows",
  "C09": "rpad (pad_none with/without clip at every axis), fillna (fill_none at the top option level), convert (conversions among the option encodings, project, bytemask = is_none), record_scalar (fill_none of one record taken out of a record array fills that record's fields only)",
  "C11": "valid_accept (layouts obeying every documented rule -- strings, bytestrings and fixed-length strings included -- pass validityerror), valid_reject (one documented rule broken at one node -- offsets, starts/stops, indexes, tags, mask/content/field lengths, option directly in option, negative size, malformed string/char/byte/categorical parameters --: reported, or refused by the constructor; never a crash) and, in EVERY family, the layout returned for a valid input passes validityerror",
- "C12": "every family: the call neither crashes nor hangs (each case runs in a forked child with a 20 s alarm), the input layouts are byte-for-byte unchanged afterwards and the result reads the same after its inputs have been dropped; invalid_nocrash (to_list / deep_copy / depth queries on layouts with one broken rule never crash); thorough tier: the same under AddressSanitizer",
+ "C12": "every family: the call neither crashes nor hangs (each case runs in a forked child with a 20 s alarm), the input layouts are byte-for-byte unchanged afterwards and the result reads the same after its inputs have been dropped; invalid_nocrash (to_list / deep_copy / depth queries on layouts with one broken rule never crash); print_nocrash (printing -- Content::tostring -- a valid layout, a layout with one broken rule, or dates and time differences of any magnitude never crashes); thorough tier: the same under AddressSanitizer",
  "C14": "builder (random well-nested values through the real ArrayBuilder incl. records with differing fields, tuples, strings (also with NUL characters), None, mixed numbers incl. integers beyond 2**32: final to_list equals the appended values up to the documented unification, length, validity; zero-field tuples; snapshots taken between values and in the middle of an open value equal the values completed so far and read the same at the end, for initial buffer sizes 1, 2, 8, 1024) and builder_malformed (unbalanced end, field/index outside record/tuple raise)",
  "C19": "forth (random small programs -- stack/arithmetic/comparison/bitwise words, if/else, do/loop/+loop with i, begin/until, begin/while/repeat, user words with exit, variables, typed little/big-endian, repeated, varint and zigzag reads to the stack or to an output, seek/skip/len/pos/end, typed output writes, +<-, rewind, halt, pause -- on the real ForthMachine64 in three schedules (run resumed after every pause, single-stepped, mixed) and with output buffers starting at 1, 2 or 1024 items: error status, stack, variables, outputs and input positions equal those of the reference interpreter akvlib/nat/forthref.py written from the documented semantics)",
  "C18": "virtual (the operations of the other families through a real VirtualArray with a counting generator and no cache / an unbounded cache / a cache that evicts after k hits, optionally with a first generation that fails; in a third of the cases the VirtualArray is the content of the outermost list/regular/indexed/option node, and every virtual input is read again after the call), virtual_enforce (declared length+form: length/depth/form queries never invoke the generator; a too-short or wrong-form generation is refused and leaves neither an inferred form nor a cached array), field projection of a lazy record array answers depth queries like the eager field, partitioned (IrregularlyPartitionedArray getitem_at, getitem_range with any start/stop and steps up to +-7, repartition incl. empty partitions, against the concatenated list)",
